@@ -2,9 +2,9 @@
 # For every "fix:" commit of /repo: re-introduce the original defect (reverse patch) on a scratch worktree of HEAD and
 # require the check of the property it belongs to to report a violation.   usage: tools/revert_battery.sh [tier]
 tier=${1:-quick}
-declare -A PROP=( [de3245c]=C01 [7a23391]=C01 [fedfc91]=C02 [571e6e0]=C02 [38dab89]=C06 [dbadff5]=C06 [e16fa69]=C08 [80f5091]=C08 [024510a]=C06 [24868c3]=C11 [a40ca72]=C12 [d312027]=C06 [d754800]=C17 [e0ffa7a]=C18 [83c010f]=C18 [c6d02f0]=C06 [7e2c594]=C06 [49ac9a3]=C19 [2cdb79b]=C15 [025e641]=C11 [13cec84]=C11 [239cbd9]=C15 [ecc01c3]=C02 [1857b8a]=C02 [17a7ea8]=C17 [d55fb9f]=C08 [e2b013e]=C14 [af30752]=C12 [6ce548b]=C02 [691389d]=C11 [cb990e3]=C11 [8e8d10b]=C04 )
+declare -A PROP=( [de3245c]=C01 [7a23391]=C01 [fedfc91]=C02 [571e6e0]=C02 [38dab89]=C06 [dbadff5]=C06 [e16fa69]=C08 [80f5091]=C08 [024510a]=C06 [24868c3]=C11 [a40ca72]=C12 [d312027]=C06 [d754800]=C17 [e0ffa7a]=C18 [83c010f]=C18 [c6d02f0]=C06 [7e2c594]=C06 [49ac9a3]=C19 [2cdb79b]=C15 [025e641]=C11 [13cec84]=C11 [239cbd9]=C15 [ecc01c3]=C02 [1857b8a]=C02 [17a7ea8]=C17 [d55fb9f]=C08 [e2b013e]=C14 [af30752]=C12 [6ce548b]=C02 [691389d]=C11 [cb990e3]=C11 [8e8d10b]=C04 [1dca145]=C05 )
 mkdir -p /tmp/mw /verif/seeded
-for h in ${ONLY:-de3245c 7a23391 fedfc91 571e6e0 38dab89 dbadff5 e16fa69 80f5091 024510a 24868c3 a40ca72 d312027 d754800 e0ffa7a 83c010f c6d02f0 7e2c594 49ac9a3 2cdb79b 025e641 13cec84 239cbd9 ecc01c3 1857b8a 17a7ea8 d55fb9f e2b013e af30752 6ce548b 691389d cb990e3 8e8d10b}; do
+for h in ${ONLY:-de3245c 7a23391 fedfc91 571e6e0 38dab89 dbadff5 e16fa69 80f5091 024510a 24868c3 a40ca72 d312027 d754800 e0ffa7a 83c010f c6d02f0 7e2c594 49ac9a3 2cdb79b 025e641 13cec84 239cbd9 ecc01c3 1857b8a 17a7ea8 d55fb9f e2b013e af30752 6ce548b 691389d cb990e3 8e8d10b 1dca145}; do
   p=${PROP[$h]}
   dir=/verif/seeded/R-$h
   mkdir -p $dir
